@@ -791,6 +791,27 @@ func allStrings(maxLen int) []string {
 		out = append(out, cur...)
 		prev = cur
 	}
+	// every one-byte value (the cipher permutes them: a collision among the 256
+	// substitutes is certain if any cipher-text byte is mistranslated); in the
+	// thorough tier every two-byte value as well
+	seen := map[string]bool{}
+	for _, s := range out {
+		seen[s] = true
+	}
+	for b := 0; b < 256; b++ {
+		if s := string([]byte{byte(b)}); !seen[s] {
+			out = append(out, s)
+		}
+	}
+	if maxLen >= 4 {
+		for a := 0; a < 256; a++ {
+			for b := 0; b < 256; b++ {
+				if s := string([]byte{byte(a), byte(b)}); !seen[s] {
+					out = append(out, s)
+				}
+			}
+		}
+	}
 	return out
 }
 
@@ -833,6 +854,7 @@ func runStringCase(c Case, counters map[string]int) []string {
 		return []string{fmt.Sprintf("string layer: panic=%q err=%v", pan, err)}
 	}
 	rel := newRel()
+	relB := newRel()
 	recs := got.ResourceLogs().At(0).ScopeLogs().At(0).LogRecords()
 	if recs.Len() != len(ss) {
 		return []string{fmt.Sprintf("string layer: %d records in, %d out", len(ss), recs.Len())}
@@ -845,6 +867,14 @@ func runStringCase(c Case, counters map[string]int) []string {
 			if v.Type() == pcommon.ValueTypeStr {
 				outv = v.Str()
 				n++
+			}
+			if v.Type() == pcommon.ValueTypeBytes {
+				ob := string(v.Bytes().AsRaw())
+				if len(ob) != len(s) {
+					viol = append(viol, fmt.Sprintf("string layer: bytes value %q replaced by %d bytes, want %d", s, len(ob), len(s)))
+				} else if m := relB.add("bytes value", s, ob); m != "" {
+					viol = append(viol, "string layer: "+m)
+				}
 			}
 			return true
 		})
